@@ -68,3 +68,24 @@ Print Assumptions C11_offset_never_beyond_buffer.
 Print Assumptions C11_limit_bounds_consumption.
 Print Assumptions C11_limit_reached_then_error_and_clear_restores.
 Print Assumptions C11_nonvacuous.
+
+(** history level: after ANY request history on a buffer, the unread part is
+    the original buffer from the current offset, and a successful word / string
+    request returns what the ORIGINAL buffer holds there *)
+Theorem C11_after_any_history_reads_the_buffer_at_the_offset :
+  (forall buf qs, let d := snd (serve_all (mkdec buf) qs) in rest d = skipn (N.to_nat (off d)) buf) /\
+  (forall buf qs w d', let d := snd (serve_all (mkdec buf) qs) in
+     word d = (inl w, d') ->
+     exists b0 b1 b2 b3,
+       firstn 4 (skipn (N.to_nat (off d)) buf) = [b0; b1; b2; b3] /\
+       w = word_of_bytes b0 b1 b2 b3 /\ off d' = off d + 4 /\ off d' <= N.of_nat (length buf)) /\
+  (forall buf qs s d', let d := snd (serve_all (mkdec buf) qs) in
+     dstring d = (inl s, d') ->
+     exists i, index0 (skipn (N.to_nat (off d)) buf) = Some i /\
+               s = firstn i (skipn (N.to_nat (off d)) buf) /\
+               off d' = off d + 4 * (N.of_nat i / 4 + 1) /\ off d' <= N.of_nat (length buf)).
+Proof.
+  exact (conj history_unread_is_buffer_from_offset
+        (conj history_word_is_buffer_word history_string_is_buffer_string)).
+Qed.
+Print Assumptions C11_after_any_history_reads_the_buffer_at_the_offset.
